@@ -4,6 +4,7 @@ import (
 	"encoding/json"
 	"fmt"
 	"testing"
+	"verifharness/model"
 
 	"verifharness/cat"
 	"verifharness/rt"
@@ -32,6 +33,9 @@ func init() {
 // c04Run checks one (row, variant, params, script): model agreement, index
 // sequence, no post-delivery mutation, no escaping panic.
 func c04Run(t rt.TB, c c04Case) {
+	// the single-row check judges Max by its documentation (see model.PinnedMaxEmptyZero)
+	defer func(v bool) { model.PinnedMaxEmptyZero = v }(model.PinnedMaxEmptyZero)
+	model.PinnedMaxEmptyZero = false
 	row := cat.ByName(c.Op)
 	want, blocked := modelRow(row, c.P, c.Script, nil)
 	if blocked {
